@@ -38,6 +38,7 @@ KINDS = [
     "string_too_large",
     "item_too_large",
     "struct_update_bad_field",
+    "struct_from_other_size_xobject",
     "union_non_member",
     "other_context",
     "offset_without_buffer",
@@ -309,6 +310,45 @@ def run_case(case):
                 return lambda: obj._update(upd)
             parent = mat.obj_get(obj, node, path[:-1])
             return lambda: mat.obj_set(parent[0], parent[1], path[-1:], upd)
+        if kind == "struct_from_other_size_xobject":
+            # a whole-struct assignment from an object of the very same class in which one dynamic array has another
+            # length: the element's size is fixed, an array update of another length cannot be honoured
+            import copy as _copy
+
+            structs = [(pp, s_) for pp, s_ in mat.compound_paths(spec, model) if s_["k"] == "struct" and pp and pp[-1][0] != "d" and not tg.has_refs(s_)]
+            cands = []
+            for pp, sspec in structs:
+                _, sv = mat.model_get(spec, model, pp)
+                for fn, ft in sspec["fields"]:
+                    if ft["k"] == "array" and ft["shape"][0] is None and (sv[fn]["flat"] or _default_item(ft["item"]) is not None):
+                        cands.append((pp, sspec, sv, fn, ft))
+            if not cands:
+                return ("na",)
+            path, sspec, sv, fn, ft = cands[mu["li"] % len(cands)]
+            nv = _copy.deepcopy(sv)
+            av = nv[fn]
+            shp = list(av["shape"])
+            rest = math.prod(shp[1:]) if len(shp) > 1 else 1
+            if mu["variant"] % 2 == 0 and shp[0] >= 1:
+                shp[0] -= 1
+                av["flat"] = av["flat"][: shp[0] * rest]
+                labels.add("other_size:shorter")
+            else:
+                proto = av["flat"][0] if av["flat"] else _default_item(ft["item"])
+                shp[0] += 1
+                av["flat"] = av["flat"] + [proto] * rest
+                labels.add("other_size:longer")
+            if rest == 0:
+                return ("na",)
+            av["shape"] = shp
+            snode, _ = mat.node_at(node, model, path)
+            src = snode.cls(assign.plain_arg(snode, mat.expected_value(sspec, nv)), _buffer=buf)
+            tgt_, _ = mat.obj_get(obj, node, path)
+            if int(src._size) == int(tgt_._size):
+                return ("na",)  # slot rounding: the other length occupies the same space, the assignment can be honoured
+            parent = mat.obj_get(obj, node, path[:-1])
+            applied = True
+            return lambda: mat.obj_set(parent[0], parent[1], path[-1:], src)
         if kind == "other_context":
             other = xo.ContextCpu()
             applied = True
